@@ -60,7 +60,7 @@ var staticCols = map[string][]string{
 	"stop_times.txt":     {"trip_id", "arrival_time", "departure_time", "stop_id", "stop_sequence", "stop_headsign", "pickup_type", "drop_off_type", "continuous_pickup", "continuous_drop_off", "shape_dist_traveled", "timepoint"},
 }
 var staticOrder = []string{"agency.txt", "routes.txt", "stops.txt", "transfers.txt", "calendar.txt", "calendar_dates.txt", "shapes.txt", "trips.txt", "frequencies.txt", "stop_times.txt"}
-var staticZones = []string{"America/New_York", "Europe/London", "Australia/Lord_Howe", "Asia/Kolkata", "UTC", "America/Sao_Paulo"}
+var staticZones = []string{"America/New_York", "Europe/London", "Australia/Lord_Howe", "Asia/Kolkata", "UTC", "America/Sao_Paulo", "Australia/Sydney", "Pacific/Auckland", "America/Santiago"}
 
 func (g *gen) text() string {
 	return g.pick([]string{"", "Main St", "a, b", "say \"hi\"", "line\nbreak", " padded ", "Ünïcode", "x", "100", "semi;colon", "tab\tbed"})
@@ -117,9 +117,27 @@ func (g *gen) intSpell(q int) string {
 	}
 	return fmt.Sprint(q)
 }
+
+var zoneTransitionDays = map[string][]string{
+	"Australia/Sydney":    {"20241006", "20250406", "20240407", "20231001"},
+	"Australia/Lord_Howe": {"20241006", "20250406", "20240407", "20231001"},
+	"Pacific/Auckland":    {"20240929", "20240407", "20250406", "20230924"},
+	"America/Santiago":    {"20240908", "20240407", "20230903", "20250406"},
+	"America/Sao_Paulo":   {"20181104", "20180218", "20171015"},
+	"America/New_York":    {"20240310", "20241103", "20230312"},
+	"Europe/London":       {"20240331", "20241027", "20230326"},
+}
+
 func (g *gen) date() string {
+	if len(g.zoneDates) > 0 && g.coin(0.12) { // a day on which the feed's own zone changes its offset (possibly at midnight)
+		return g.pick(g.zoneDates)
+	}
 	if g.coin(0.05) { // leap days (also of century years divisible by 400) and the ends of the calendar
 		return g.pick([]string{"20240229", "20000229", "24000229", "00010101", "00010102", "99991231", "20231231", "20230101"})
+	}
+	if g.coin(0.08) { // days on which some zone changes its offset (the day starts - if it has a midnight at all - under one offset and ends under another), and their neighbours
+		return g.pick([]string{"20240310", "20240311", "20240309", "20241103", "20241104", "20240331", "20240401", "20241027", "20241006", "20241005", "20241007",
+			"20250406", "20250405", "20240407", "20240929", "20240928", "20181104", "20181103", "20180218", "20240907", "20240908", "20240406"})
 	}
 	return fmt.Sprintf("%04d%02d%02d", 2022+g.r.Intn(3), 1+g.r.Intn(12), 1+g.r.Intn(28))
 }
@@ -132,13 +150,21 @@ func (g *gen) wellFormed(size int) *sfeed {
 		f.tables = append(f.tables, t)
 		return t
 	}
+	longPrefix := g.coin(0.4) // ids that share their first eight and more bytes
 	ids := func(prefix string, n int) []string {
+		if longPrefix {
+			prefix = prefix + "_2024_id_"
+		}
 		var out []string
 		for i := 0; i < n; i++ {
 			out = append(out, fmt.Sprintf("%s%d", prefix, i))
 		}
 		if n > 1 && g.coin(0.3) {
 			out[n-1] = prefix + " with space"
+		}
+		if n > 2 && g.coin(0.15) {
+			// one id a proper prefix of another, the longer continuing with a digit ("TX" / "TX1")
+			out[n-2], out[n-1] = prefix+"X", prefix+"X1"
 		}
 		if n > 1 && g.coin(0.12) {
 			// ids are byte strings: two ids that differ only in bytes that are not valid UTF-8 (a Latin-1 export) are different ids
@@ -153,6 +179,7 @@ func (g *gen) wellFormed(size int) *sfeed {
 		ag.rows = append(ag.rows, srow{"agency_id": agIDs[i], "agency_name": "Agency " + g.text() + fmt.Sprint(i), "agency_url": "http://a" + fmt.Sprint(i), "agency_timezone": g.pick(staticZones),
 			"agency_lang": g.pick([]string{"", "en"}), "agency_phone": g.pick([]string{"", "555-1234"}), "agency_fare_url": g.text(), "agency_email": g.pick([]string{"", "x@y.z"})})
 	}
+	g.zoneDates = zoneTransitionDays[ag.rows[0]["agency_timezone"]]
 	nRoutes := 1 + g.r.Intn(1+size/4)
 	rt := add("routes.txt")
 	routeIDs := ids("R", nRoutes)
@@ -253,16 +280,60 @@ func (g *gen) wellFormed(size int) *sfeed {
 	nTrips := 1 + g.r.Intn(1+size/3)
 	tp := add("trips.txt")
 	tripIDs := ids("T", nTrips)
+	glued := -1
+	if nRoutes >= 2 && nSvc >= 2 && nTrips >= 2 && g.coin(0.12) {
+		// (route, service) pairs that coincide once the two ids are glued with a separator: "a_b"+"c" and "a"+"b_c"
+		sep := g.pick([]string{"_", "|", "/", ":", " ", "-", ";", ""})
+		rename := func(tables []string, col string, from, to string) {
+			for _, tn := range tables {
+				if t := f.table(tn); t != nil {
+					for _, r := range t.rows {
+						if r[col] == from {
+							r[col] = to
+						}
+					}
+				}
+			}
+		}
+		rename([]string{"routes.txt"}, "route_id", routeIDs[0], "a"+sep+"b")
+		rename([]string{"routes.txt"}, "route_id", routeIDs[1], "a")
+		rename([]string{"calendar.txt", "calendar_dates.txt"}, "service_id", svcIDs[0], "c")
+		rename([]string{"calendar.txt", "calendar_dates.txt"}, "service_id", svcIDs[1], "b"+sep+"c")
+		routeIDs[0], routeIDs[1], svcIDs[0], svcIDs[1] = "a"+sep+"b", "a", "c", "b"+sep+"c"
+		glued = g.r.Intn(nTrips - 1)
+	}
 	for i := 0; i < nTrips; i++ {
 		r := srow{"route_id": routeIDs[g.r.Intn(nRoutes)], "service_id": svcIDs[g.r.Intn(nSvc)], "trip_id": tripIDs[i], "trip_headsign": g.text(), "trip_short_name": g.pick([]string{"", "101"}),
 			"direction_id": g.pick([]string{"0", "1"}), "block_id": g.pick([]string{"", "b"}), "shape_id": "", "wheelchair_accessible": g.pick([]string{"0", "1", "2"}), "bikes_allowed": g.pick([]string{"0", "1", "2"})}
 		if len(shapeIDs) > 0 && g.coin(0.6) {
 			r["shape_id"] = shapeIDs[g.r.Intn(len(shapeIDs))]
 		}
+		if i == glued {
+			r["route_id"], r["service_id"] = routeIDs[0], svcIDs[0]
+		} else if glued >= 0 && i == glued+1 {
+			r["route_id"], r["service_id"] = routeIDs[1], svcIDs[1]
+		}
 		tp.rows = append(tp.rows, r)
 	}
 	if g.coin(0.5) {
 		fq := add("frequencies.txt")
+		if nTrips >= 2 && g.coin(0.35) {
+			// one trip with more windows than any small fixed block holds, another trip's windows among and after them
+			long, other := tripIDs[g.r.Intn(nTrips)], tripIDs[g.r.Intn(nTrips)]
+			for k, n := 0, 9+g.r.Intn(6); k < n; k++ {
+				fq.rows = append(fq.rows, srow{"trip_id": long, "start_time": fmt.Sprintf("%02d:00:00", 5+k), "end_time": fmt.Sprintf("%02d:30:00", 5+k), "headway_secs": fmt.Sprint(60 * (1 + k)), "exact_times": g.pick([]string{"0", "1"})})
+				if k == 0 || g.coin(0.3) {
+					fq.rows = append(fq.rows, srow{"trip_id": other, "start_time": fmt.Sprintf("%02d:15:00", 5+k), "end_time": fmt.Sprintf("%02d:45:00", 5+k), "headway_secs": fmt.Sprint(600 + k), "exact_times": g.pick([]string{"0", "1"})})
+				}
+			}
+		}
+		for i := 0; i+1 < nTrips; i++ {
+			// (trip_id, start_time) pairs whose plain concatenations coincide: "TX"+"10:00:00" and "TX1"+"0:00:00"
+			if tripIDs[i]+"1" == tripIDs[i+1] && g.coin(0.8) {
+				fq.rows = append(fq.rows, srow{"trip_id": tripIDs[i], "start_time": "10:00:00", "end_time": "11:00:00", "headway_secs": "600", "exact_times": "0"},
+					srow{"trip_id": tripIDs[i+1], "start_time": "0:00:00", "end_time": "1:00:00", "headway_secs": "300", "exact_times": "1"})
+			}
+		}
 		for k := g.r.Intn(4); k > 0; k-- {
 			fq.rows = append(fq.rows, srow{"trip_id": tripIDs[g.r.Intn(nTrips)], "start_time": g.gtfsTime(), "end_time": g.gtfsTime(), "headway_secs": g.pick([]string{fmt.Sprint(60 * (1 + g.r.Intn(30))), "16777217", "33554433"}), "exact_times": g.pick([]string{"0", "1"})})
 		}
